@@ -468,6 +468,10 @@ func cmdCheck(prop string, tier string) int {
 			rf := ReplayFile{Property: prop, Harness: h.Name, Pkg: h.PkgRel, AssertID: v.AssertID, Why: v.Why, Values: modelStrings(v.Model), Choices: v.Choices, Thorough: thorough}
 			if strings.Contains(h.Name, "MapOrder") {
 				rf.Repeat = 300 // Go randomises map iteration natively: repeat until the order that fails shows up
+			} else if h.PkgRel == "store/rootmulti" || h.PkgRel == "baseapp" {
+				// the real root multistore commits its substores in Go map order (the engine uses insertion order): a
+				// counterexample that depends on which substore was flushed first may need a few native attempts
+				rf.Repeat = 40
 			}
 			for k := range knownOn {
 				rf.Known = append(rf.Known, k)
